@@ -178,7 +178,7 @@ def run_case(ctx, kind, rng, idx):
     comps, w = scc_oracle(C, thr)
     keeps = {}
     for cname in mc.CONTAINERS:
-        Cin = mc.to_container(C, cname)
+        Cin = mc.to_container(C, cname, rng)
         fz = Frozen(Cin)
         try:
             mapping, Tc = tm.trim_disconnected(Cin, threshold=thr,
